@@ -10,12 +10,12 @@ pub struct Rec {
     pub calls: u32,
     pub cmd: u8,
     pub n: usize,
-    pub args: [u8; 24],
+    pub args: [u8; 48],
     pub pixel_calls: u32,
 }
 impl Rec {
     pub fn new() -> Self {
-        Rec { calls: 0, cmd: 0, n: 0, args: [0; 24], pixel_calls: 0 }
+        Rec { calls: 0, cmd: 0, n: 0, args: [0; 48], pixel_calls: 0 }
     }
 }
 impl Interface for Rec {
@@ -27,7 +27,7 @@ impl Interface for Rec {
         self.cmd = command;
         self.n = args.len();
         let mut i = 0;
-        while i < 24 {
+        while i < 48 {
             if i < args.len() {
                 self.args[i] = args[i];
             }
@@ -92,7 +92,7 @@ macro_rules! basic {
 }
 
 #[kani::proof]
-#[kani::unwind(26)]
+#[kani::unwind(50)]
 //@ props=C18 inst="the ten parameter-less commands" bounds="16-byte buffer with symbolic prior content; symbolic byte index" timeout=300 mem=3
 fn c18_basic() {
     basic!(SoftReset, 0x01);
@@ -109,7 +109,7 @@ fn c18_basic() {
 }
 
 #[kani::proof]
-#[kani::unwind(26)]
+#[kani::unwind(50)]
 //@ props=C18,C08 inst="SetColumnAddress, SetPageAddress" bounds="all 2^32 start/end pairs each" timeout=300 mem=3
 fn c18_address() {
     let (s, e): (u16, u16) = (kani::any(), kani::any());
@@ -119,7 +119,7 @@ fn c18_address() {
 }
 
 #[kani::proof]
-#[kani::unwind(26)]
+#[kani::unwind(50)]
 //@ props=C18,C16 inst="SetScrollArea, SetScrollStart" bounds="all u16^3 / all u16" timeout=300 mem=3
 fn c18_scroll() {
     let (a, b, c): (u16, u16, u16) = (kani::any(), kani::any(), kani::any());
@@ -142,7 +142,7 @@ fn any_bpp() -> (BitsPerPixel, u8) {
 }
 
 #[kani::proof]
-#[kani::unwind(26)]
+#[kani::unwind(50)]
 //@ props=C18,C05 inst="SetPixelFormat, SetTearingEffect, SetInvertMode, SetAddressMode" bounds="all enum variants (6x6 pixel formats, 3 tearing modes, 2 inversions, 64 address modes)" timeout=300 mem=3
 fn c18_enums() {
     let (dpi, dv) = any_bpp();
@@ -162,17 +162,17 @@ fn c18_enums() {
 }
 
 #[kani::proof]
-#[kani::unwind(26)]
-//@ props=C18 inst="InterfaceExt::write_raw, also through &mut T" bounds="any instruction byte, parameter slices of length 0..=20 with symbolic content" timeout=300 mem=3
+#[kani::unwind(50)]
+//@ props=C18 inst="InterfaceExt::write_raw, also through &mut T" bounds="any instruction byte, parameter slices of length 0..=40 with symbolic content" timeout=600 mem=4
 fn c18_write_raw() {
     let instr: u8 = kani::any();
-    let data: [u8; 20] = kani::any();
+    let data: [u8; 40] = kani::any();
     let n: usize = kani::any();
-    kani::assume(n <= 20);
+    kani::assume(n <= 40);
     let mut rec = Rec::new();
     rec.write_raw(instr, &data[..n]).unwrap();
     let j: usize = kani::any();
-    kani::assume(j < 20);
+    kani::assume(j < 40);
     assert!(rec.calls == 1 && rec.pixel_calls == 0 && rec.cmd == instr && rec.n == n, "[C18] write_raw sends the instruction and exactly the given bytes");
     if j < n {
         assert!(rec.args[j] == data[j], "[C18] write_raw parameter byte");
@@ -186,6 +186,6 @@ fn c18_write_raw() {
     if j < n {
         assert!(rec2.args[j] == data[j], "[C18] write_raw parameter byte through &mut T");
     }
-    kani::cover!(n == 20 && j == 19, "cover: longest slice");
+    kani::cover!(n == 40 && j == 39, "cover: longest slice");
     kani::cover!(n == 0, "cover: empty slice");
 }
